@@ -12,6 +12,7 @@ class Bad(Exception):
 
 
 def read_png(data):
+    """Any non-interlaced PNG of colour type 0, 2, 3, 4 or 6 with bit depth <= 8 (all five filter types)."""
     if data[:8] != b'\x89PNG\r\n\x1a\n':
         raise Bad('PNG signature')
     p = 8
@@ -35,47 +36,58 @@ def read_png(data):
     if len(chunks[0][1]) != 13:
         raise Bad('IHDR length')
     w, h, depth, ctype, comp, flt, il = struct.unpack('>2I5B', chunks[0][1])
-    if (comp, flt, il) != (0, 0, 0):
-        raise Bad('IHDR compression/filter/interlace')
-    if ctype not in (0, 3) or depth not in (1, 2, 4, 8):
-        raise Bad('colour type %d depth %d' % (ctype, depth))
+    if (comp, flt) != (0, 0):
+        raise Bad('IHDR compression/filter method')
+    if il != 0:
+        raise Bad('interlaced PNG is not supported by this reader')
+    allowed = {0: (1, 2, 4, 8), 2: (8,), 3: (1, 2, 4, 8), 4: (8,), 6: (8,)}
+    if ctype not in allowed or depth not in allowed[ctype]:
+        raise Bad('colour type %d with bit depth %d' % (ctype, depth))
+    if w == 0 or h == 0:
+        raise Bad('zero dimension')
     plte = trns = None
     idat = b''
     phys = None
-    seen_idat = False
-    for typ, body in chunks[1:-1]:
+    idat_idx = [k for k, n in enumerate(names) if n == b'IDAT']
+    if not idat_idx:
+        raise Bad('no IDAT')
+    if idat_idx != list(range(idat_idx[0], idat_idx[0] + len(idat_idx))):
+        raise Bad('IDAT chunks not consecutive')
+    for k, (typ, body) in enumerate(chunks[1:-1], start=1):
+        before_idat = k < idat_idx[0]
         if typ == b'PLTE':
-            if seen_idat or trns is not None or plte is not None:
+            if not before_idat or trns is not None or plte is not None:
                 raise Bad('PLTE order')
-            if len(body) % 3 or not 1 <= len(body) // 3 <= (1 << depth):
+            if len(body) % 3 or not 1 <= len(body) // 3 <= 256 or (ctype == 3 and len(body) // 3 > (1 << depth)):
                 raise Bad('PLTE size %d for depth %d' % (len(body), depth))
             plte = [tuple(body[i:i + 3]) for i in range(0, len(body), 3)]
         elif typ == b'tRNS':
-            if seen_idat or trns is not None:
+            if not before_idat or trns is not None:
                 raise Bad('tRNS order')
             trns = body
         elif typ == b'IDAT':
-            if seen_idat and names[names.index(b'IDAT'):].count(b'IDAT') != len([n for n in names if n == b'IDAT']):
-                raise Bad('IDAT not consecutive')
-            seen_idat = True
             idat += body
         elif typ == b'pHYs':
-            if seen_idat or len(body) != 9:
+            if not before_idat or len(body) != 9:
                 raise Bad('pHYs')
             phys = struct.unpack('>LLB', body)
+        elif typ[:1].islower():
+            continue            # other ancillary chunks are legal anywhere
         else:
-            raise Bad('unexpected chunk ' + typ.decode('latin1'))
-    if not seen_idat:
-        raise Bad('no IDAT')
+            raise Bad('unknown critical chunk ' + typ.decode('latin1'))
     if ctype == 3 and plte is None:
         raise Bad('indexed colour without PLTE')
-    if ctype == 0 and plte is not None:
+    if ctype in (0, 4) and plte is not None:
         raise Bad('PLTE in greyscale image')
     if trns is not None:
         if ctype == 3 and len(trns) > len(plte):
             raise Bad('tRNS longer than palette')
         if ctype == 0 and len(trns) != 2:
             raise Bad('tRNS length for greyscale')
+        if ctype == 2 and len(trns) != 6:
+            raise Bad('tRNS length for truecolour')
+        if ctype in (4, 6):
+            raise Bad('tRNS with alpha colour type')
     try:
         d = zlib.decompressobj()
         raw = d.decompress(idat) + d.flush()
@@ -83,49 +95,72 @@ def read_png(data):
             raise Bad('zlib stream incomplete or trailing data')
     except zlib.error as ex:
         raise Bad('zlib: %s' % ex)
-    stride = (w * depth + 7) // 8
+    channels = {0: 1, 2: 3, 3: 1, 4: 2, 6: 4}[ctype]
+    stride = (w * depth * channels + 7) // 8
+    bpp = max(1, depth * channels // 8)
     if len(raw) != (stride + 1) * h:
         raise Bad('image data length %d != %d' % (len(raw), (stride + 1) * h))
-    rows = []
-    prev = bytes(stride)
+    prev = bytearray(stride)
     filters = set()
-    for y in range(h):
-        f = raw[y * (stride + 1)]
-        line = raw[y * (stride + 1) + 1:(y + 1) * (stride + 1)]
-        filters.add(f)
-        if f == 0:
-            cur = line
-        elif f == 2:
-            cur = bytes((a + b) & 0xff for a, b in zip(line, prev))
-        elif f == 1:
-            cur = bytearray(line)
-            for i in range(1, len(cur)):
-                cur[i] = (cur[i] + cur[i - 1]) & 0xff
-            cur = bytes(cur)
-        else:
-            raise Bad('filter type %d' % f)
-        prev = cur
-        vals = []
-        for byte in cur:
-            for k in range(8 // depth):
-                vals.append((byte >> (8 - depth * (k + 1))) & ((1 << depth) - 1))
-        rows.append(vals[:w])
     px = []
     gtrns = struct.unpack('>H', trns)[0] if (trns is not None and ctype == 0) else None
-    for r in rows:
-        out = []
-        for v in r:
-            if ctype == 3:
-                if v >= len(plte):
-                    raise Bad('index %d outside palette of %d' % (v, len(plte)))
-                a = trns[v] if trns is not None and v < len(trns) else 255
-                out.append(plte[v] + (a,))
-            else:
-                g = v * 255 // ((1 << depth) - 1)
-                out.append((g, g, g, 0 if gtrns == v else 255))
-        px.append(out)
+    ttrns = struct.unpack('>3H', trns) if (trns is not None and ctype == 2) else None
+    for y in range(h):
+        f = raw[y * (stride + 1)]
+        line = bytearray(raw[y * (stride + 1) + 1:(y + 1) * (stride + 1)])
+        filters.add(f)
+        if f == 0:
+            pass
+        elif f == 1:
+            for i in range(bpp, stride):
+                line[i] = (line[i] + line[i - bpp]) & 0xff
+        elif f == 2:
+            for i in range(stride):
+                line[i] = (line[i] + prev[i]) & 0xff
+        elif f == 3:
+            for i in range(stride):
+                a = line[i - bpp] if i >= bpp else 0
+                line[i] = (line[i] + ((a + prev[i]) >> 1)) & 0xff
+        elif f == 4:
+            for i in range(stride):
+                a = line[i - bpp] if i >= bpp else 0
+                b = prev[i]
+                c = prev[i - bpp] if i >= bpp else 0
+                pa, pb, pc = abs(b - c), abs(a - c), abs(a + b - 2 * c)
+                pr = a if (pa <= pb and pa <= pc) else (b if pb <= pc else c)
+                line[i] = (line[i] + pr) & 0xff
+        else:
+            raise Bad('filter type %d' % f)
+        prev = line
+        row = []
+        if ctype in (0, 3):
+            vals = []
+            for byte in line:
+                for k in range(8 // depth):
+                    vals.append((byte >> (8 - depth * (k + 1))) & ((1 << depth) - 1))
+            for v in vals[:w]:
+                if ctype == 3:
+                    if v >= len(plte):
+                        raise Bad('index %d outside palette of %d' % (v, len(plte)))
+                    a = trns[v] if trns is not None and v < len(trns) else 255
+                    row.append(plte[v] + (a,))
+                else:
+                    g = v * 255 // ((1 << depth) - 1)
+                    row.append((g, g, g, 0 if gtrns == v else 255))
+        elif ctype == 2:
+            for x in range(w):
+                r, g, b = line[3 * x:3 * x + 3]
+                row.append((r, g, b, 0 if ttrns == (r, g, b) else 255))
+        elif ctype == 4:
+            for x in range(w):
+                g, a = line[2 * x:2 * x + 2]
+                row.append((g, g, g, a))
+        else:
+            for x in range(w):
+                row.append(tuple(line[4 * x:4 * x + 4]))
+        px.append(row)
     return {'w': w, 'h': h, 'depth': depth, 'ctype': ctype, 'px': px, 'phys': phys, 'filters': sorted(filters),
-            'ncolors': len(plte) if plte else 2}
+            'ncolors': len(plte) if plte else None}
 
 
 def _pnm_tokens(data, n):
@@ -184,8 +219,6 @@ def read_pnm(data):
                 raise Bad('P1 raster contains other characters')
             if len(vals) != w * h:
                 raise Bad('P1 raster has %d pixels, header says %d' % (len(vals), w * h))
-            if max((len(l) for l in body.split(b'\n')), default=0) > max(w, 70) and w <= 70:
-                raise Bad('P1 line too long')
             bits = [vals[y * w:(y + 1) * w] for y in range(h)]
         px = [[(0, 0, 0, 255) if b else (255, 255, 255, 255) for b in r] for r in bits]
         return {'w': w, 'h': h, 'px': px, 'kind': magic.decode()}
